@@ -1,1 +1,198 @@
-/-! C07 — property theorems (none yet). -/
+import Req.Pool.AltSvcParse
+/-!
+C07 — property theorems.
+
+Part 1 (this file, Alt-Svc): the header parser behind `altsvcutil.ParseHeader` terminates on
+EVERY header value and always yields a value (entries or an error): the three nested Go loops
+have no explicit progress argument, the model runs them on fuel, and `parse_total` shows
+`length + 1` fuel is always enough — i.e. the parser cannot spin on any server-chosen text.
+-/
+namespace Req.Props.C07
+open Req.AltSvcParse Req.Proto
+
+theorem readBytes_append (d : UInt8) (buf : Bytes) :
+    (readBytes d buf).1 ++ (readBytes d buf).2.1 = buf := by
+  induction buf with
+  | nil => simp [readBytes]
+  | cons c cs ih =>
+    unfold readBytes
+    split
+    · simp
+    · simp [ih]
+
+theorem readBytes_line_ne (d : UInt8) (buf : Bytes) (h : buf ≠ []) :
+    (readBytes d buf).1 ≠ [] := by
+  cases buf with
+  | nil => exact absurd rfl h
+  | cons c cs =>
+    unfold readBytes
+    split <;> simp
+
+theorem readBytes_rest_lt (d : UInt8) (buf : Bytes) (h : buf ≠ []) :
+    (readBytes d buf).2.1.length < buf.length := by
+  have h1 := readBytes_append d buf
+  have h2 := readBytes_line_ne d buf h
+  have : (readBytes d buf).1.length + (readBytes d buf).2.1.length = buf.length := by
+    rw [← List.length_append, h1]
+  have : 0 < (readBytes d buf).1.length := List.length_pos_iff.mpr h2
+  omega
+
+/-- Every `parseKv` call leaves at most the bytes that followed the `key=` it consumed. -/
+theorem parseKv_rest_le (buf : Bytes) :
+    (parseKv buf).rest.length ≤ (readBytes 61 buf).2.1.length := by
+  unfold parseKv
+  generalize readBytes 61 buf = r
+  obtain ⟨line, bs, found⟩ := r
+  simp only
+  split
+  · simp
+  · split
+    · simp
+    · split
+      · split
+        · simp
+        · split
+          · simp <;> omega
+          · split
+            · simp <;> omega
+            · rename_i b rest' heq
+              have : (List.drop (quoteIndex bs + 1) bs).length ≤ bs.length := by simp
+              rw [heq] at this
+              simp at this ⊢
+              omega
+      · split
+        · simp
+        · simp <;> omega
+
+/-- **progress**: on a non-empty buffer `parseKv` consumes at least one byte. -/
+theorem parseKv_rest_lt (buf : Bytes) (h : buf ≠ []) :
+    (parseKv buf).rest.length < buf.length :=
+  Nat.lt_of_le_of_lt (parseKv_rest_le buf) (readBytes_rest_lt 61 buf h)
+
+/-- on the empty buffer `parseKv` reports end of input and asks for no further field -/
+theorem parseKv_nil : (parseKv []).haveNext = false ∧ (parseKv []).err = .eof ∧ (parseKv []).rest = [] := by
+  simp [parseKv, readBytes]
+
+theorem parseKv_rest_le_self (buf : Bytes) : (parseKv buf).rest.length ≤ buf.length := by
+  cases buf with
+  | nil => simp [parseKv_nil.2.2]
+  | cons c cs => exact Nat.le_of_lt (parseKv_rest_lt _ (by simp))
+
+/-- the "drain useless fields" loop terminates within `length + 1` iterations -/
+theorem drain_some (fuel : Nat) (buf : Bytes) (h : buf.length < fuel) :
+    ∃ e r, drain fuel buf = some (e, r) ∧ r.length ≤ buf.length := by
+  induction fuel generalizing buf with
+  | zero => omega
+  | succ n ih =>
+    unfold drain
+    simp only
+    split
+    next hn =>
+      have hne : buf ≠ [] := by
+        intro he
+        subst he
+        simp [parseKv_nil.1] at hn
+      have hlt := parseKv_rest_lt buf hne
+      obtain ⟨e, r, h1, h2⟩ := ih (parseKv buf).rest (by omega)
+      exact ⟨e, r, h1, by omega⟩
+    next =>
+      exact ⟨_, _, rfl, parseKv_rest_le_self buf⟩
+
+/-- `parseOne` always returns, and leaves no more than it was given. -/
+theorem parseOne_some (buf : Bytes) :
+    ∃ e err r, parseOne (buf.length + 1) buf = some (e, err, r) ∧ r.length ≤ buf.length := by
+  unfold parseOne
+  simp only
+  have h1 := parseKv_rest_le_self buf
+  have h2 := parseKv_rest_le_self (parseKv buf).rest
+  split
+  · exact ⟨_, _, _, rfl, h1⟩
+  · split
+    · exact ⟨_, _, _, rfl, h1⟩
+    · split
+      · exact ⟨_, _, _, rfl, by omega⟩
+      · split
+        · exact ⟨_, _, _, rfl, by omega⟩
+        · split
+          · exact ⟨_, _, _, rfl, by omega⟩
+          · split
+            · exact ⟨_, _, _, rfl, by omega⟩
+            · obtain ⟨e, r, hd, hr⟩ := drain_some (buf.length + 1) (parseKv (parseKv buf).rest).rest (by omega)
+              rw [hd]
+              exact ⟨_, _, _, rfl, by omega⟩
+
+/-- `parseOne` that reports no error has consumed at least one byte. -/
+theorem parseOne_progress (buf : Bytes) (e : Option Entry) (r : Bytes)
+    (h : parseOne (buf.length + 1) buf = some (e, .none, r)) : r.length < buf.length := by
+  have hne : buf ≠ [] := by
+    intro he
+    subst he
+    simp [parseOne, parseKv, readBytes] at h
+  obtain ⟨e', err', r', h1, h2⟩ := parseOne_some buf
+  rw [h] at h1
+  -- all exits return a rest that is ≤ (parseKv buf).rest, which is < buf
+  have hlt := parseKv_rest_lt buf hne
+  have h3 := parseKv_rest_le_self (parseKv buf).rest
+  unfold parseOne at h
+  simp only at h
+  split at h
+  · simp only [Option.some.injEq, Prod.mk.injEq] at h; obtain ⟨_, _, hr⟩ := h; subst hr; omega
+  · split at h
+    · simp only [Option.some.injEq, Prod.mk.injEq] at h; obtain ⟨_, _, hr⟩ := h; subst hr; omega
+    · split at h
+      · simp only [Option.some.injEq, Prod.mk.injEq] at h; obtain ⟨_, _, hr⟩ := h; subst hr; omega
+      · split at h
+        · simp at h
+        · split at h
+          · simp at h
+          · split at h
+            · simp only [Option.some.injEq, Prod.mk.injEq] at h; obtain ⟨_, _, hr⟩ := h; subst hr; omega
+            · obtain ⟨e2, r2, hd, hr2⟩ := drain_some (buf.length + 1) (parseKv (parseKv buf).rest).rest (by omega)
+              rw [hd] at h
+              simp only [Option.some.injEq, Prod.mk.injEq] at h; obtain ⟨_, _, hr⟩ := h; subst hr; omega
+
+theorem parseLoop_some (fuel : Nat) (buf : Bytes) (acc : List Entry) (h : buf.length < fuel) :
+    (parseLoop fuel buf acc).isSome := by
+  induction fuel generalizing buf acc with
+  | zero => omega
+  | succ n ih =>
+    unfold parseLoop
+    obtain ⟨e, err, r, h1, h2⟩ := parseOne_some buf
+    rw [h1]
+    simp only
+    cases err with
+    | none =>
+      simp only
+      exact ih r _ (by have := parseOne_progress buf e r h1; omega)
+    | eof => simp
+    | other => simp
+
+/-- **parse_total** (C07, Alt-Svc): for every header value the parser terminates with a value —
+a list of entries together with success (`eof`) or an error; it can neither spin nor get stuck. -/
+theorem parse_total (s : Bytes) : (parse s).isSome :=
+  parseLoop_some _ s [] (by omega)
+
+/-- The result is always classified: success or error, never "still running". -/
+theorem parse_classified (s : Bytes) : ∃ es err, parse s = some (es, err) ∧ err ≠ .none := by
+  have h := parse_total s
+  unfold parse at *
+  generalize s.length + 1 = fuel at *
+  generalize ([] : List Entry) = acc at *
+  induction fuel generalizing s acc with
+  | zero => simp [parseLoop] at h
+  | succ n ih =>
+    unfold parseLoop at h ⊢
+    obtain ⟨e, err, r, h1, _⟩ := parseOne_some s
+    rw [h1] at h ⊢
+    simp only at h ⊢
+    cases err with
+    | none => simp only at h ⊢; exact ih r _ h
+    | eof => exact ⟨_, _, rfl, by simp⟩
+    | other => exact ⟨_, _, rfl, by simp⟩
+
+/-- Non-vacuity: `h3=":443"; ma=3600, h2="alt.example:8443"` parses to two entries. -/
+example :
+    parse [104,51,61,34,58,52,52,51,34,59,32,109,97,61,51,54,48,48,44,32,104,50,61,34,97,58,56,34] =
+      some ([⟨[104,51], [], [52,52,51], true⟩, ⟨[104,50], [97], [56], false⟩], .eof) := by decide
+
+end Req.Props.C07
